@@ -21,56 +21,87 @@ NONE = -1
 
 
 def run_history(cfg, ops):
-    """Run ops on a real DeferredQueue; return the trace dict."""
+    """Run ops on a real DeferredQueue; return the trace dict.
+
+    ("getput",) is a get whose callback, when it fires, immediately issues a further put() (a re-entrant
+    operation: it runs inside the put() - or right after the get() - that serves this get).  Events are
+    logged in linearisation order: the serving call first, then the nested put as an ordinary put event."""
     from twisted.internet import defer
 
     q = defer.DeferredQueue(size=None if cfg["size"] == NONE else cfg["size"],
                             backlog=None if cfg["backlog"] == NONE else cfg["backlog"])
-    gets = []      # Deferreds returned by get() (None for underflowed calls)
-    dl = []        # deliveries observed during the current call
-    nobj = 0
+    gets = []          # Deferreds returned by get() (None for underflowed calls)
+    reput = set()      # get ids whose callback issues a nested put
+    stack = [[]]       # deliveries observed by the call currently executing (innermost last)
+    nested = []        # events of nested puts, in the order they were issued
+    state = {"nobj": 0}
     ev = []
 
     class Obj:
         def __init__(self, n):
             self.n = n
 
+    def do_put():
+        state["nobj"] += 1
+        stack.append([])
+        try:
+            q.put(Obj(state["nobj"]))
+            res = "ok"
+        except defer.QueueOverflow:
+            res = "overflow"
+        except BaseException as e:  # not an action of the spec
+            res = "EXC:" + type(e).__name__
+        dl = stack.pop()
+        return {"e": "put", "res": res, "dl": [list(x) for x in dl]}
+
     def on_ok(o, g):
-        dl.append([g, o.n])
+        stack[-1].append([g, o.n])
+        if g in reput:
+            reput.discard(g)
+            slot = len(nested)
+            nested.append(None)          # keep issue order: this nested put precedes the ones it causes
+            e = do_put()
+            e["nested"] = True
+            nested[slot] = e
 
     def on_err(f, g):
-        dl.append([g, "ERR:" + f.type.__name__])
+        stack[-1].append([g, "ERR:" + f.type.__name__])
+
+    def flush(first):
+        ev.append(first)
+        ev.extend(x for x in nested if x is not None)
+        del nested[:]
 
     for op in ops:
-        del dl[:]
+        del stack[1:]
+        del stack[0][:]
         if op[0] == "put":
-            nobj += 1
-            try:
-                q.put(Obj(nobj))
-                res = "ok"
-            except defer.QueueOverflow:
-                res = "overflow"
-            except BaseException as e:  # not an action of the spec
-                res = "EXC:" + type(e).__name__
-            ev.append({"e": "put", "res": res, "dl": [list(x) for x in dl]})
-        elif op[0] == "get":
+            flush(do_put())
+        elif op[0] in ("get", "getput"):
             g = len(gets) + 1
+            if op[0] == "getput":
+                reput.add(g)
             try:
                 d = q.get()
                 d.addCallbacks(on_ok, on_err, callbackArgs=(g,), errbackArgs=(g,))
                 gets.append(d)
+                dl = stack[0]
                 res = "now" if dl else "wait"
             except defer.QueueUnderflow:
                 gets.append(None)
+                reput.discard(g)
+                dl = []
                 res = "underflow"
             except BaseException as e:
                 gets.append(None)
+                dl = []
                 res = "EXC:" + type(e).__name__
-            ev.append({"e": "get", "res": res, "dl": [list(x) for x in dl]})
+            flush({"e": "get", "res": res, "dl": [list(x) for x in dl]})
         else:
             g = op[1]
             d = gets[g - 1]
             res = "noop"
+            dl = stack[0]
             if d is not None:
                 try:
                     d.cancel()
@@ -79,7 +110,8 @@ def run_history(cfg, ops):
                 if dl == [[g, "ERR:CancelledError"]]:
                     res = "cancelled"
                     del dl[:]
-            ev.append({"e": "cancel", "g": g, "res": res, "dl": [list(x) for x in dl]})
+                    reput.discard(g)
+            flush({"e": "cancel", "g": g, "res": res, "dl": [list(x) for x in dl]})
     return {"cfg": cfg, "ops": [list(o) for o in ops], "ev": ev}
 
 
@@ -91,6 +123,7 @@ def exhaustive(depth):
             return
         yield from rec(prefix + [("put",)], ngets, left - 1)
         yield from rec(prefix + [("get",)], ngets + 1, left - 1)
+        yield from rec(prefix + [("getput",)], ngets + 1, left - 1)
         for g in range(1, ngets + 1):
             yield from rec(prefix + [("cancel", g)], ngets, left - 1)
     # only maximal or all prefixes?  every prefix is itself a history; keep only leaves (length = depth)
@@ -107,7 +140,7 @@ def random_history(rng, n):
         if r < 0.4:
             ops.append(("put",))
         elif r < 0.8 or ngets == 0:
-            ops.append(("get",))
+            ops.append(("getput",) if rng.random() < 0.3 else ("get",))
             ngets += 1
         else:
             # bias to recent gets (more likely still waiting)
